@@ -188,12 +188,18 @@ func TestVfPool(t *testing.T) {
 				default:
 				}
 				a := addrs[lr.Intn(3)]
-				if present[a] {
-					r.cur.RemoveBackend(a)
-					delete(present, a)
-				} else {
-					r.cur.AddBackend(r.double(a))
-					present[a] = true
+				// a panic of a membership operation is an observation, like one of a dispatch
+				if pm := vfCatch(func() {
+					if present[a] {
+						r.cur.RemoveBackend(a)
+						delete(present, a)
+					} else {
+						r.cur.AddBackend(r.double(a))
+						present[a] = true
+					}
+				}); pm != "" {
+					tr.Emit(vfM{"ev": "panic", "g": vfGid(), "msg": pm})
+					return
 				}
 				for k := lr.Intn(4); k > 0; k-- {
 					runtime.Gosched()
@@ -281,14 +287,19 @@ func TestVfPool(t *testing.T) {
 			if present[a] {
 				op = "rm"
 			}
-			if _, stuck := vfWithin(20*time.Second, func() {
+			pm, stuck := vfWithin(20*time.Second, func() {
 				if op == "add" {
 					rb.AddBackend(mk(a))
 				} else {
 					rb.RemoveBackend(a)
 				}
-			}); stuck {
+			})
+			if stuck {
 				stuckOp = op
+			}
+			if pm != "" {
+				tr.Emit(vfM{"ev": "panic", "g": 0, "msg": pm})
+				break
 			}
 			present[a] = !present[a]
 			time.Sleep(time.Duration(lr.Intn(300)) * time.Microsecond)
